@@ -23,7 +23,9 @@ RULE = ('every DSL module program up to the tier size, legal and illegal (name c
         'parents; x 3 input shapes (+ bf16 for the shape-only clause). Per program: init vs '
         'reference tree; apply(init vars) structure and output; every parameter path deleted / '
         'reshaped / collection deleted under 3 mutable filters; every child applied standalone on '
-        'its subtree and via bind/unbind; lazy_init / eval_shape(init) / jit(init). Non-trivial: '
+        'its subtree and via bind/unbind; lazy_init / eval_shape(init) / jit(init); auto-named children '
+        'created in helper methods (direct / plain / @nn.jit / @nn.remat, 2-3 slots, 4 in thorough) vs '
+        'the inlined program. Non-trivial: '
         'program has a child or a clash; distinct by program text')
 ASSUMPTIONS = [
   'programs are those of the DSL; integer-valued float32 data',
@@ -38,7 +40,8 @@ SHAPES = [(2,), (1, 2), (3, 2)]
 
 def bounds(tier):
   return dict(statements=3 if tier == 'quick' else 4, nesting=2,
-              shapes=SHAPES, clash_statements=2 if tier == 'quick' else 3)
+              shapes=SHAPES, clash_statements=2 if tier == 'quick' else 3,
+              helper_slots=3 if tier == 'quick' else 4, helper_programs=len(_helper_programs(tier)))
 
 
 def _legal_programs(tier):
@@ -87,7 +90,31 @@ def units(tier, seed):
   shared = [d for d in dsl.defs_upto(2, 0, LEAVES[:6])]
   for i in range(0, len(shared), 8):
     us.append(dict(kind='shared', defs=[dsl.tolist(d) for d in shared[i:i + 8]]))
+  # auto-named children created in helper methods, plain or wrapped in a lifted transform
+  hs = _helper_programs(tier)
+  for i in range(0, len(hs), 24):
+    us.append(dict(kind='helper', progs=[list(map(list, h)) for h in hs[i:i + 24]]))
   return us
+
+
+HELPER_HOWS_QUICK = ['d', 'j', 'r']
+HELPER_HOWS = ['d', 'p', 'j', 'r']   # direct, plain helper, @nn.jit helper, @nn.remat helper
+HELPER_KIDS = ['K1', 'K2', 'K12']    # helper bodies: one K1, one K2, a K1 then a K2
+
+
+def _helper_programs(tier):
+  hows = HELPER_HOWS_QUICK if tier == 'quick' else HELPER_HOWS
+  n = 3 if tier == 'quick' else 4
+  slots = [(h, k) for h in hows for k in HELPER_KIDS if not (h == 'd' and k == 'K12')]
+  out = []
+  for ln in range(2, n + 1):
+    for prog in itertools.product(slots, repeat=ln):
+      if all(h in ('d', 'p') for h, _ in prog) and any(h == 'p' for h, _ in prog) and tier == 'quick':
+        continue
+      if all(h == 'd' for h, _ in prog):
+        continue          # the plain twin itself
+      out.append(prog)
+  return out
 
 
 def run_unit(unit):
@@ -98,10 +125,144 @@ def run_unit(unit):
   elif unit['kind'] == 'clash':
     for cls, dl in unit['progs']:
       _clash(res, cls, dsl.fromlist(dl))
+  elif unit['kind'] == 'helper':
+    for prog in unit['progs']:
+      _helper(res, tuple(tuple(sl) for sl in prog))
   else:
     for dl in unit['defs']:
       _shared(res, dsl.fromlist(dl))
   return res
+
+
+_HELPER_CLS = None
+
+
+def _helper_cls():
+  global _HELPER_CLS
+  if _HELPER_CLS is not None:
+    return _HELPER_CLS
+  import jax
+  import jax.numpy as jnp
+  import flax.linen as nn
+
+  def winit(key, shape):
+    return jnp.floor(jax.random.uniform(key, shape) * 8) + 1
+
+  class K1(nn.Module):
+    @nn.compact
+    def __call__(self, x):
+      return x * self.param('w', winit, (2,)) + 1
+
+  class K2(nn.Module):
+    @nn.compact
+    def __call__(self, x):
+      c = self.variable('cnt', 'n', lambda: jnp.zeros(()))
+      if self.is_mutable_collection('cnt'):
+        c.value = c.value + 1
+      return x + self.param('b', winit, (2,))
+
+  def body(self, x, k):
+    if k in ('K1', 'K12'):
+      x = K1()(x)
+    if k in ('K2', 'K12'):
+      x = K2()(x)
+    return x
+
+  class Prog(nn.Module):
+    slots: tuple = ()
+
+    @nn.compact
+    def __call__(self, x):
+      for how, k in self.slots:
+        if how == 'd':
+          x = body(self, x, k)
+        else:
+          x = getattr(self, f'h_{how}_{k}')(x)
+      return x
+
+    def h_p_K1(self, x): return body(self, x, 'K1')
+    def h_p_K2(self, x): return body(self, x, 'K2')
+    def h_p_K12(self, x): return body(self, x, 'K12')
+    @nn.jit
+    def h_j_K1(self, x): return body(self, x, 'K1')
+    @nn.jit
+    def h_j_K2(self, x): return body(self, x, 'K2')
+    @nn.jit
+    def h_j_K12(self, x): return body(self, x, 'K12')
+    @nn.remat
+    def h_r_K1(self, x): return body(self, x, 'K1')
+    @nn.remat
+    def h_r_K2(self, x): return body(self, x, 'K2')
+    @nn.remat
+    def h_r_K12(self, x): return body(self, x, 'K12')
+
+  _HELPER_CLS = Prog
+  return Prog
+
+
+def _helper(res, prog):
+  """Auto-named children created inside helper methods (plain / @nn.jit / @nn.remat) called
+  from a compact method: the i-th instance of class K is K_i wherever it is created, and the
+  tree equals the tree of the same program with every helper inlined."""
+  import jax
+  Prog = _helper_cls()
+  pkey = 'helper:' + ','.join(h + ':' + k for h, k in prog)
+  case = dict(slots=[list(sl) for sl in prog])
+  x = _x((2,), 0)
+  rngs = {'params': jax.random.key(3)}
+
+  def V(tag, what, **kw):
+    core.violation(res, f'{tag}|{pkey}', what, dict(case, **{k: jsonable(v) for k, v in kw.items()}))
+
+  # reference: K_i naming by order of creation
+  n1 = n2 = 0
+  names = []
+  for _, k in prog:
+    if k in ('K1', 'K12'):
+      names.append(f'K1_{n1}')
+      n1 += 1
+    if k in ('K2', 'K12'):
+      names.append(f'K2_{n2}')
+      n2 += 1
+  plain = Prog(slots=tuple(('d', k) for _, k in prog))
+  m = Prog(slots=prog)
+  res['evals'] += 4
+  o_ref, v_ref = plain.init_with_output(rngs, x)
+  if sorted(v_ref['params']) != sorted(names):
+    V('helper-ref-names', 'the inlined program itself is not named K_i by creation order',
+      observed=sorted(v_ref['params']), expected=sorted(names))
+    return
+  try:
+    o, v = m.init_with_output(rngs, x)
+  except Exception as e:  # noqa
+    V('helper-init-raises', f'{type(e).__name__}: {e}'[:300])
+    return
+  if sorted(v['params']) != sorted(names):
+    V('helper-names', 'children created in helper methods are not named K_i by creation order '
+      '(two distinct children may share one subtree)', observed=sorted(v['params']),
+      expected=sorted(names))
+  # (initial values may differ: a lifted transform derives its rng keys differently; structure,
+  # shapes and dtypes may not, and apply below is compared on the same variables)
+  if _shapes(v) != _shapes(v_ref):
+    V('helper-tree', 'variable tree (paths, shapes, dtypes) differs from the same program with '
+      'the helpers inlined', observed=_shapes(v), expected=_shapes(v_ref))
+  try:
+    o1 = m.apply(v, x)
+    if canon_tree(np.asarray(o1)) != canon_tree(np.asarray(plain.apply(v, x))):
+      V('helper-apply-own', 'apply on the variables init returned differs from the inlined program')
+  except Exception as e:  # noqa
+    V('helper-apply-raises', f'apply(init vars): {type(e).__name__}: {e}'[:300])
+  try:
+    o2, upd = m.apply(v_ref, x, mutable=['cnt'])
+    o2r, updr = plain.apply(v_ref, x, mutable=['cnt'])
+    if canon_tree(np.asarray(o2)) != canon_tree(np.asarray(o2r)) or \
+       canon_tree(np_tree(upd), True) != canon_tree(np_tree(updr), True):
+      V('helper-apply', 'apply on the inlined program\'s variables differs from the inlined program',
+        observed=np_tree(upd), expected=np_tree(updr))
+  except Exception as e:  # noqa
+    V('helper-apply-raises', f'{type(e).__name__}: {e}'[:300])
+  core.outcome(res, 'helper:' + ''.join(sorted(set(h for h, _ in prog))))
+  res['nontrivial'].append(core.h(pkey))
 
 
 def _kind(e):
